@@ -3,8 +3,11 @@ depends on where the reads happen to end.
 
 Run:  cd /tmp/wa_C06 && PYTHONPATH=/tmp/wa_C06 /venv/bin/python _finding/2/demo.py
 """
+import os as _os
+_TREE_UNDER_TEST = _os.environ.get("GVERIF_REPO") or _os.getcwd()   # the checkout under test (was the auditing agent's scratch worktree)
+
 import sys
-sys.path.insert(0, "/tmp/wa_C06")
+sys.path.insert(0, _TREE_UNDER_TEST)
 
 import hashlib
 
@@ -13,7 +16,7 @@ from gunicorn.http.parser import RequestParser
 from gunicorn.http.errors import ParseException, NoMoreData
 from gunicorn.workers.base import Worker
 
-assert sys.modules["gunicorn"].__file__.startswith("/tmp/wa_C06/"), sys.modules["gunicorn"].__file__
+assert sys.modules["gunicorn"].__file__.startswith(_TREE_UNDER_TEST), sys.modules["gunicorn"].__file__
 
 
 def segments(stream, cuts):
